@@ -77,6 +77,7 @@ func checkC16(c *Check) {
 	c16StatusAsStored(c, "R7")
 	c16ForcedClassHasNoStatus(c, "R8")
 	c16ReplyClassRewrittenForRcptOnly(c, "R9")
+	c16AuthRepliesAreSMTPErrors(c, "R10")
 	c.Rule("R3c", "tryDelivery: the status kept for the report and the retry decision come from the same error: every path to the temporariness classification of an attempt's error has stored that error's conversion as the recipient's status (a status left over from an earlier attempt can have the other class)", 1)
 	c16StatusFromThisAttempt(c)
 
